@@ -10,6 +10,7 @@ package files
 //@ import "io/fs"
 //@ import "time"
 //@ import "path/filepath"
+//@ import "os"
 //
 //@ spec func rpmOnly(t string) bool {
 //@     return t == "ghost" || t == "doc" || t == "licence" || t == "license" || t == "readme"
@@ -126,3 +127,71 @@ package files
 //@     if statted(fi, t, src, mtime) { return fsSize(src) }
 //@     return declSize(fi)
 //@ }
+//
+//@ spec func planEntryOK(c *Content, mtimeSet bool) bool {
+//@     return c != nil && fresh(c) && allocated(c) && c.FileInfo != nil && fresh(c.FileInfo) && allocated(c.FileInfo) &&
+//@         implies(mtimeSet, !c.FileInfo.MTime.IsZero())
+//@ }
+//
+//@ spec func planMapOK(m map[string]*Content, mtimeSet bool) bool {
+//@     return forallKeys(m, func(k string) bool { return planEntryOK(m[k], mtimeSet) })
+//@ }
+//
+//@ spec func SpecPlanSliceOK(cs Contents, mtimeSet bool) bool {
+//@     return forall(0, len(cs), func(i int) bool { return planEntryOK(cs[i], mtimeSet) })
+//@ }
+//
+//@ spec func SpecContentsNonNil(cs Contents) bool {
+//@     return forall(0, len(cs), func(i int) bool { return cs[i] != nil })
+//@ }
+//
+//@ func sortedParents(dst string) (paths []string)
+//@   ensures [C11 C12] fresh-result: paths == nil || fresh(paths)
+//@   ensures [C06 C07] no-events: flag("failed") == old(flag("failed")) && flag("clockRead") == old(flag("clockRead")) && flag("envRead") == old(flag("envRead"))
+//@   modifies [C11 C12]
+//@   loop 0 (paths []string)
+//@     invariant [C11 C12] accumulator-fresh: fresh(paths)
+//@   loop 1 (paths []string)
+//@     invariant [C11 C12] accumulator-fresh: fresh(paths)
+//
+//@ inline func addParents(contentMap map[string]*Content, path string, mtime time.Time) (err error)
+//@   loop 0
+//@     invariant [C11 C12 C07] plan-map-ok: planMapOK(contentMap, !mtime.IsZero())
+//@     invariant [C06] no-failure-so-far: !flag("failed")
+//@     invariant [C07] no-clock-so-far: !flag("clockRead") && !flag("envRead")
+//
+//@ inline func addGlobbedFiles(all map[string]*Content, globbed map[string]string, origFile *Content, umask fs.FileMode, mtime time.Time) (err error)
+//@   loop 0
+//@     invariant [C11 C12 C07] plan-map-ok: planMapOK(all, !mtime.IsZero())
+//@     invariant [C06] no-failure-so-far: !flag("failed")
+//@     invariant [C07] no-clock-so-far: !flag("clockRead") && !flag("envRead")
+//
+//@ inline func addTree(all map[string]*Content, tree *Content, umask os.FileMode, mtime time.Time) (err error)
+//
+//@ inline func ownedByFilesystem(path string) (result bool)
+//
+//@ inline func addTree$1(path string, d fs.DirEntry, err error) (result error) captures (all map[string]*Content, tree *Content, mtime time.Time)
+//@   requires [C11 C12 C07] plan-map-ok: planMapOK(all, !mtime.IsZero())
+//@   requires [C06] no-failure-so-far: !flag("failed")
+//@   requires [C07] no-clock-so-far: !flag("clockRead") && !flag("envRead")
+//@   requires tree != nil
+//
+//@ func PrepareForPackager(rawContents Contents, umask fs.FileMode, packager string, disableGlobbing bool, mtime time.Time) (res Contents, err error)
+//@   requires SpecContentsNonNil(rawContents)
+//@   requires !flag("failed") && !flag("clockRead") && !flag("envRead")
+//@   ensures [C11 C12 C01 C07] plan-fresh: implies(err == nil, SpecPlanSliceOK(res, !mtime.IsZero()))
+//@   ensures [C11 C12] result-fresh: implies(err == nil, res == nil || fresh(res))
+//@   ensures [C06] loud: implies(err == nil, !flag("failed"))
+//@   ensures [C07] no-clock-no-env: !flag("clockRead") && !flag("envRead")
+//@   modifies [C11 C12] flag("failed")
+//@   loop 0 (contentMap map[string]*Content)
+//@     invariant [C11 C12 C07] plan-map-ok: planMapOK(contentMap, !mtime.IsZero())
+//@     invariant [C11 C12] map-fresh: fresh(contentMap)
+//@     invariant [C06] no-failure-so-far: !flag("failed")
+//@     invariant [C07] no-clock-so-far: !flag("clockRead") && !flag("envRead")
+//@   loop 1 (contentMap map[string]*Content, res Contents)
+//@     invariant [C11 C12 C07] plan-map-ok: planMapOK(contentMap, !mtime.IsZero())
+//@     invariant [C11 C12 C01 C07] plan-slice-ok: SpecPlanSliceOK(res, !mtime.IsZero())
+//@     invariant [C11 C12] accumulator-fresh: res == nil || fresh(res)
+//@     invariant [C06] no-failure-so-far: !flag("failed")
+//@     invariant [C07] no-clock-so-far: !flag("clockRead") && !flag("envRead")
